@@ -1,13 +1,14 @@
 From Coq Require Import NArith List Lia ZArith Bool.
 From Coq Require Import ZifyN ZifyNat ZifyBool.
-From ColumnV Require Import Bytes Ops.
+From ColumnV Require Import GenConsts Bytes Ops.
 Import ListNotations.
 Local Open Scope N_scope.
 
 Record header := mkh { hchunk : N; hstart : nat; hvalue : N }.
 Record buffer := mkb { blast : N; bchunk : option N; bbytes : list N; bhdrs : list header }.
 Definition empty := mkb 0 None [] [].
-Definition chunk_of (i : N) := i / 16384.
+(* writeChunk: idx >> chunkShift, the shift regenerated from commit/commit.go *)
+Definition chunk_of (i : N) := i / c_commit_commit_chunkSize.
 
 Definition same_chunk (oc : option N) (c : N) : bool := match oc with Some c' => c' =? c | None => false end.
 Definition put (b : buffer) (o : op) : buffer :=
